@@ -39,7 +39,7 @@ def compat_definition(ctx):
     k_diff, n_diff = dispatch.select(shim, {"%s.id" % a: "x", "%s.id" % b: "y"})
     r.check(k_same == "return" and isinstance(n_same, ast.Constant) and n_same.value is True and (n_diff is None), "equal ids", SP, "check_if_compatible", f3.lineno, "compatibility of equal ids",
             "two references to spaces with the same id are reported as %s; different ids decide %s before the representations are compared" % (unparse(n_same) if n_same is not None else None, unparse(n_diff) if n_diff is not None else "nothing"))
-    okt, msg = False, "no try block compares the hashes of the compatible representations"
+    okt, msg = None, "no try block compares the hashes of the compatible representations"
     if len(tr) == 1:
         t = tr[0]
         asg = [s for s in t.body if isinstance(s, ast.Assign) and isinstance(s.value, ast.Call) and unparse(s.value.func) == "return_compatible_representation"]
